@@ -557,6 +557,107 @@ fn c16(args: &[String]) {
     writeln!(out, "{}", json!({"shard_done": shard})).unwrap();
 }
 
+/// c17 --mode replay --in <ndjson> --out <ndjson> [--shard i --of n] [--only k]
+/// c17 --mode stress --out <ndjson> --trace <ndjson> [--runs n] [--clients c] [--reqs r] [--seed s]
+fn c17(args: &[String]) {
+    let mode = arg(args, "--mode").expect("--mode");
+    let output = arg(args, "--out").expect("--out");
+    let mut out = std::fs::OpenOptions::new().create(true).append(true).open(&output).expect("open output");
+    writeln!(out, "{}", json!({"idx": 0, "begin": true})).unwrap();
+    let mut vio: Vec<Value> = vec![];
+    if mode == "stress" {
+        let trace = arg(args, "--trace").expect("--trace");
+        let runs: usize = arg(args, "--runs").map(|s| s.parse().unwrap()).unwrap_or(4);
+        let clients: usize = arg(args, "--clients").map(|s| s.parse().unwrap()).unwrap_or(3);
+        let reqs: usize = arg(args, "--reqs").map(|s| s.parse().unwrap()).unwrap_or(6);
+        let seed: u64 = arg(args, "--seed").map(|s| s.parse().unwrap()).unwrap_or(0);
+        let mut tf = std::fs::File::create(&trace).expect("trace file");
+        let mut events = 0usize;
+        for r in 0..runs {
+            let s = match lvh::c17::Server::start() {
+                Ok(s) => s,
+                Err(e) => {
+                    vio.push(json!({"oracle": "machinery", "what": e}));
+                    break;
+                }
+            };
+            writeln!(tf, "{}", json!({"ev": "reset", "c": "", "kind": "", "ep": "", "outcome": "", "status": 0, "snap": 0})).unwrap();
+            // the table exists before the concurrent phase starts
+            let a = s.rt.block_on(lvh::c17::post_bytes(&s.client, s.url("/insert_bin"), lvh::c17::batch(1_000_000 + r)));
+            if a.status != Some(200) {
+                vio.push(json!({"oracle": "insert", "what": format!("first insert: {:?} {}", a.status, a.err)}));
+            }
+            let (ev, v) = lvh::c17::stress(&s, clients, reqs, seed + r as u64);
+            for e in &ev {
+                // every record carries every field (TLC's records are typed by their field sets)
+                let mut e = e.clone();
+                for (k, d) in [("ep", json!("")), ("outcome", json!("")), ("status", json!(0)), ("snap", json!(-1))] {
+                    if e.get(k).is_none() {
+                        e[k] = d;
+                    }
+                }
+                writeln!(tf, "{}", e).unwrap();
+            }
+            events += ev.len();
+            for mut x in v {
+                x["run"] = json!(r);
+                vio.push(x);
+            }
+            s.stop();
+        }
+        writeln!(out, "{}", json!({"idx": 0, "units": runs, "events": events, "violations": vio, "panics": lvh::util::take_panics()})).unwrap();
+        writeln!(out, "{}", json!({"shard_done": 0})).unwrap();
+        return;
+    }
+    let input = arg(args, "--in").expect("--in");
+    let shard: usize = arg(args, "--shard").map(|s| s.parse().unwrap()).unwrap_or(0);
+    let of: usize = arg(args, "--of").map(|s| s.parse().unwrap()).unwrap_or(1);
+    let only: Option<usize> = arg(args, "--only").map(|s| s.parse().unwrap());
+    let f = std::io::BufReader::new(std::fs::File::open(&input).expect("open input"));
+    let mut server = match lvh::c17::Server::start() {
+        Ok(s) => s,
+        Err(e) => {
+            writeln!(out, "{}", json!({"idx": 0, "units": 0, "requests": 0, "violations": [{"oracle": "machinery", "what": e}]})).unwrap();
+            writeln!(out, "{}", json!({"shard_done": shard})).unwrap();
+            return;
+        }
+    };
+    let (mut units, mut requests) = (0usize, 0usize);
+    let mut next_batch = 0usize;
+    let mut seen: std::collections::BTreeMap<u16, usize> = Default::default();
+    for (i, line) in f.lines().enumerate() {
+        let line = line.unwrap();
+        if i % of != shard || only.map(|o| o != i).unwrap_or(false) {
+            continue;
+        }
+        let v: Value = serde_json::from_str(&line).expect("json");
+        let ops: Vec<lvh::c17::Op> = serde_json::from_value(v["ops"].clone()).expect("ops");
+        units += 1;
+        requests += ops.len();
+        // a fresh database every 50 schedules (and for schedules that start with a query on a missing table)
+        if units % 50 == 0 {
+            server.stop();
+            server = lvh::c17::Server::start().expect("restart server");
+            next_batch = 0;
+        }
+        let vs = lvh::c17::replay(&server, &ops, i, &mut next_batch, &mut seen);
+        let dead = vs.iter().any(|v| v["oracle"] == "alive");
+        for mut x in vs {
+            x["case"] = json!(i);
+            vio.push(x);
+        }
+        if dead {
+            server = lvh::c17::Server::start().expect("restart server");
+            next_batch = 0;
+        }
+        if vio.len() > 100 {
+            break;
+        }
+    }
+    writeln!(out, "{}", json!({"idx": 0, "units": units, "requests": requests, "statuses": seen, "violations": vio})).unwrap();
+    writeln!(out, "{}", json!({"shard_done": shard})).unwrap();
+}
+
 /// c14 --out <ndjson> [--all-bits] [--no-db]
 fn c14(args: &[String]) {
     let output = arg(args, "--out").expect("--out");
@@ -588,6 +689,7 @@ fn main() {
         Some("c15") => c15(&args[2..]),
         Some("c14") => c14(&args[2..]),
         Some("c16") => c16(&args[2..]),
+        Some("c17") => c17(&args[2..]),
         Some("record-stress") => record_stress(&args[2..]),
         _ => {
             eprintln!("usage: lvh <replay-hist> ...");
